@@ -3,7 +3,7 @@ import LanceModel.C18.Model
 C18 lemmas, layer 1: `Transaction::assign_row_ids` (`assignOne`, `assignRowIds`).
 -/
 namespace LanceModel.C18
-open LanceModel.Table LanceModel.C17 List
+open LanceModel.Table LanceModel.C17Base List
 
 /-- more ids than physical rows -/
 def RawFrag.excess (f : RawFrag) : Bool := decide (f.phys < f.have.length)
